@@ -22,12 +22,13 @@ PROP = dict(
                  101: "k-means model cases: model = implementation, schedule-sensitivity flag raised",
                  102: "k-means model cases: model = implementation, no flag (every schedule of the model gives this partition)"},
     trusted_base=[
-        "axioms: the k-means theorems C06_kmeans_sched_indep, C06_kmeans_checked_run, C06_kmeans_f64_sums_exact use Flocq's "
+        "axioms: C06_hilbert_sched_indep_proved (through C09's f64_add_exact) and the k-means theorems C06_kmeans_sched_indep, "
+        "C06_kmeans_sched_indep_int_inputs, C06_kmeans_checked_run, C06_kmeans_f64_sums_exact use Flocq's "
         "Bplus_correct (f64 + is exact on integers below 2^53) and therefore the axioms of Coq's classical real numbers "
         "(ClassicalDedekindReals.sig_forall_dec, ClassicalDedekindReals.sig_not_dec, "
         "FunctionalExtensionality.functional_extensionality_dep, Classical_Prop.classic); every other theorem of Properties/C06.v "
         "is closed under the global context",
-        "Flocq 4.1 (through Proofs/KMeansF64Sum.v, for the k-means theorems only)",
+        "Flocq 4.1 (through Proofs/KMeansF64Sum.v for the k-means theorems, through C09's SfcFloat proofs for C06_hilbert_sched_indep_proved)",
         "KMeans: whole-algorithm schedule independence of the concrete binary64 model (Model/KMeans.v), given the rotation matrix "
         "(input of the model) and under the exactness flag of the checked run: sums over integers whose absolute values add up "
         "to at most 2^53, max_by / min_by over lists without NaN and without both zeros, bounding box over values other than NaN "
@@ -35,8 +36,8 @@ PROP = dict(
         "both sides; model = code on final partitions of the sampled runs",
         "rayon: fold/reduce/collect preserve index order and call the closures on the pieces of SOME recursive split of the index "
         "range (the split-tree model of Lib/Rayon.v); par_sort_unstable takes no timing-dependent decision",
-        "named float assumption, a PREMISE of C06_hilbert_sched_indep and not proved from SpecFloat: f64_add_exact_on_integers "
-        "(f64 `+` is exact on non-negative integers with sum <= 2^53; DESIGN §6)",
+        "named float assumption f64_add_exact_on_integers (f64 `+` is exact on non-negative integers with sum <= 2^53; DESIGN §6): "
+        "a PREMISE of C06_hilbert_sched_indep (kept, axiom-free) and PROVED in C06_hilbert_sched_indep_proved (C09, Flocq)",
         "the theorems are about the parallel skeletons and about the algorithm models of C18 (dual graph), C16 (part loads), "
         "C03 (Rcb / Rib, whole algorithm), C11 (MultiJagged), C09 (HilbertCurve given the curve indices, ZCurve), derived from "
         "those files' property theorems by name, for every split tree / write order / block decomposition / leaf order; what "
